@@ -51,6 +51,7 @@ type Obligation struct {
 	Trivial bool
 	Bounded string // non-empty: bounded stand-in, with the bound stated
 	x       *Exec
+	Discipline bool // discharged by the append-discipline argument (no solver)
 	Cover   bool // cover query: expected SAT
 	Result  *SolveResult
 	RawScript string // language obligations: a complete SMT-LIB script
@@ -107,6 +108,7 @@ type Exec struct {
 	puDone     map[*Term]bool
 	regionSeq  int
 	pureApps   map[string][]pureAppRec
+	untrackedAppend bool // an append whose destination is not an append-chain from a parameter / nil / fresh slice
 	catDirty   bool // some instruction stored into byte memory in place
 	catGoal    bool // evaluating an ensures goal in positive position
 }
